@@ -123,6 +123,10 @@ class Ctx(object):
     def undecided(self, rule, what):
         self.not_decided.append({"rule": rule, "what": what})
 
+    def defer(self, rule, what):
+        """the rule does not apply to this shape of the code and says which other rule decides the same clause"""
+        self.not_decided.append({"rule": rule, "what": what, "deferred": True})
+
     def require_instances(self, rule, n, minimum, what):
         """Vacuity guard."""
         from .srcmodel import AnalysisError
@@ -241,7 +245,7 @@ def finish(ctx, seed=0, verbose=True):
         return 1
     # a rule that could decide NOTHING (every attempt ended in "not decided": the code uses a construct the engines do not
     # model) is an analysis failure, not a pass
-    mute = sorted(set(nd["rule"] for nd in ctx.not_decided if ctx.rule_stats.get(nd["rule"], {}).get("obligations", 0) == 0))
+    mute = sorted(set(nd["rule"] for nd in ctx.not_decided if not nd.get("deferred") and ctx.rule_stats.get(nd["rule"], {}).get("obligations", 0) == 0))
     if mute:
         print("ANALYSIS-ERROR property=%s rule(s) %s decided nothing: %s" % (ctx.prop, ", ".join(mute), "; ".join(nd["what"] for nd in ctx.not_decided if nd["rule"] in mute)[:300]))
         return 2
